@@ -18,13 +18,14 @@ import ast
 
 from .flow import FlowAnalysis
 from .index import norm
-from .nonneg import PARAM_CONTRACT, PARAM_POSITIVE, MPQ_FIELD
+from .nonneg import PARAM_CONTRACT, PARAM_POSITIVE, PARAM_BIT, MPQ_FIELD
 
 NEG, ZERO, POS = -1, 0, 1
 TOP = frozenset((NEG, ZERO, POS))
 NONNEG = frozenset((ZERO, POS))
 POSITIVE = frozenset((POS,))
 ZEROSET = frozenset((ZERO,))
+BITS = '#bits'
 BITCOUNT = ('bitcount', 'python_bitcount', 'gmpy_bitcount')
 NONNEG_CALLS = ('abs', 'len', 'ifac', 'ifac2', 'trailing', 'isqrt', 'isqrt_fast', 'isqrt_small', 'sqrt_fixed',
                 'ord') + BITCOUNT
@@ -56,9 +57,11 @@ def s_add(a, b):
 class IntSign(FlowAnalysis):
     max_iter = 60
 
-    def __init__(self, f):
+    def __init__(self, f, watch=None):
         self.f = f
         self.sites = {}          # bitcount Call node -> joined sign set of its argument
+        self.watch = watch or {}  # callee name -> indices of the arguments whose sign is recorded
+        self.watched = {}        # (Call node, index) -> joined sign set
         self.in_libmp = '/libmp/' in f.file
 
     # ---- lattice: dict name -> sign set; missing = TOP ---------------------------
@@ -66,13 +69,42 @@ class IntSign(FlowAnalysis):
         out = {}
         for k in a:
             if k in b:
+                if k == BITS:
+                    out[k] = a[k] & b[k]        # names known to hold 0 or 1 on both paths
+                    continue
                 u = a[k] | b[k]
                 if u != TOP:
                     out[k] = u
         return out
 
+    def is_bit(self, e, st):
+        """the expression is 0 or 1: a sign field, a comparison, xor / and / or of such, 1 - such"""
+        if isinstance(e, ast.Constant):
+            return e.value in (0, 1) and not isinstance(e.value, float)
+        if isinstance(e, ast.Name):
+            return e.id in st.get(BITS, frozenset())
+        if isinstance(e, ast.Compare):
+            return True
+        if isinstance(e, ast.Call) and norm(e.func) == 'bool' and len(e.args) == 1:
+            return True
+        if isinstance(e, ast.UnaryOp) and isinstance(e.op, ast.Not):
+            return True
+        if isinstance(e, ast.BinOp) and isinstance(e.op, (ast.BitXor, ast.BitAnd, ast.BitOr)):
+            return self.is_bit(e.left, st) and self.is_bit(e.right, st)
+        if isinstance(e, ast.BinOp) and isinstance(e.op, ast.BitAnd) and \
+                (isinstance(e.right, ast.Constant) and e.right.value == 1):
+            return True
+        if isinstance(e, ast.BinOp) and isinstance(e.op, ast.Sub) and isinstance(e.left, ast.Constant) and \
+                e.left.value == 1:
+            return self.is_bit(e.right, st)
+        if isinstance(e, ast.IfExp):
+            return self.is_bit(e.body, st) and self.is_bit(e.orelse, st)
+        return False
+
     def initial(self):
-        st = {}
+        st = {BITS: frozenset(p for p in self.f.params if (self.f.qualname.split('.')[-1], p) in PARAM_BIT)}
+        for p in st[BITS]:
+            st[p] = NONNEG
         short = self.f.qualname.split('.')[-1]
         for p in self.f.params:
             if (short, p) in PARAM_POSITIVE:
@@ -83,6 +115,8 @@ class IntSign(FlowAnalysis):
 
     # ---- expressions ---------------------------------------------------------------
     def ev(self, e, st):
+        if not isinstance(e, (ast.Constant, ast.Name)) and self.is_bit(e, st):
+            return NONNEG
         if isinstance(e, ast.Constant):
             v = e.value
             if isinstance(v, bool):
@@ -152,6 +186,10 @@ class IntSign(FlowAnalysis):
                 return TOP
             if isinstance(op, ast.BitAnd):
                 if a <= NONNEG or b <= NONNEG:
+                    return NONNEG
+                return TOP
+            if isinstance(op, ast.BitXor):
+                if a <= NONNEG and b <= NONNEG:
                     return NONNEG
                 return TOP
             if isinstance(op, ast.BitOr):
@@ -262,14 +300,22 @@ class IntSign(FlowAnalysis):
         for x in ast.walk(node):
             if isinstance(x, ast.Call) and isinstance(x.func, ast.Name) and x.func.id in BITCOUNT and x.args:
                 self.sites[x] = self.sites.get(x, frozenset()) | self.ev(x.args[0], st)
+            if isinstance(x, ast.Call) and isinstance(x.func, ast.Name) and x.func.id in self.watch:
+                for i in self.watch[x.func.id]:
+                    if i < len(x.args) and not isinstance(x.args[i], ast.Starred):
+                        self.watched[(x, i)] = self.watched.get((x, i), frozenset()) | self.ev(x.args[i], st)
 
-    def assign(self, target, value_sign, value_node, st):
+    def assign(self, target, value_sign, value_node, st, bit=None):
         if isinstance(target, ast.Name):
             out = dict(st)
             if value_sign == TOP:
                 out.pop(target.id, None)
             else:
                 out[target.id] = value_sign
+            if bit is None:
+                bit = value_node is not None and self.is_bit(value_node, st)
+            bits = st.get(BITS, frozenset())
+            out[BITS] = (bits | {target.id}) if bit else (bits - {target.id})
             return out
         if isinstance(target, (ast.Tuple, ast.List)):
             names = target.elts
@@ -291,6 +337,9 @@ class IntSign(FlowAnalysis):
                     v = NONNEG
                 if mpq and i == 1:
                     v = NONNEG            # create_reduced divides by a gcd that carries the sign of q
+                if mpf4 and i == 0:
+                    out = self.assign(t, v, None, out, bit=True)      # the sign field is 0 or 1
+                    continue
                 if dm:
                     a, b = self.ev(value_node.args[0], st), self.ev(value_node.args[1], st)
                     if b <= POSITIVE:
@@ -310,7 +359,7 @@ class IntSign(FlowAnalysis):
         if isinstance(node, ast.AugAssign) and isinstance(node.target, ast.Name):
             fake = ast.BinOp(left=ast.Name(id=node.target.id, ctx=ast.Load()), op=node.op, right=node.value)
             v = self.ev(fake, st)
-            return self.assign(node.target, v, None, st), st
+            return self.assign(node.target, v, fake, st), st
         return st, st
 
     def cond(self, test, st):
@@ -352,7 +401,7 @@ class IntSign(FlowAnalysis):
 
     def handler_entry(self, handler, st):
         # after an exception anywhere in the try body nothing is known about names assigned there
-        return {}
+        return {BITS: frozenset()}
 
     def nested_def(self, node, st):
         return st
@@ -362,3 +411,9 @@ def analyse(f):
     a = IntSign(f)
     a.run(f.node.body, a.initial())
     return a.sites
+
+
+def analyse_watch(f, watch):
+    a = IntSign(f, watch)
+    a.run(f.node.body, a.initial())
+    return a.watched
